@@ -1,6 +1,7 @@
 import MJ.Model.Fold
 import MJ.Model.FoldPrims
 import MJ.Model.FoldStmt
+import MJ.Model.FoldCode
 /-! Line driver for C04.
 
     stdin : `<mode>\t<ast tokens>` (the real parser's AST as dumped by `harness/src/bin/c04.rs`)
@@ -376,6 +377,48 @@ end
 
 def sortStrs (xs : List String) : List String := (xs.toArray.qsort (· < ·)).toList
 
+/-! ### the instruction stream (`codeC`), printed like the harness prints the real one -/
+
+def binName : BinOp → String
+  | .add => "Add" | .sub => "Sub" | .mul => "Mul" | .div => "Div" | .fdiv => "IntDiv" | .rem => "Rem"
+  | .pow => "Pow" | .cat => "StringConcat" | .eq => "Eq" | .ne => "Ne" | .lt => "Lt" | .le => "Lte"
+  | .gt => "Gt" | .ge => "Gte" | .in_ => "In" | .and => "?and" | .or => "?or"
+
+def cmpName : CmpOp → String
+  | .eq => "Eq" | .ne => "Ne" | .lt => "Lt" | .le => "Lte" | .gt => "Gt" | .ge => "Gte" | .in_ => "In" | .notIn => "NotIn"
+
+def argcStr : Option Nat → String
+  | some n => toString n
+  | none => "-"
+
+def showI : Instr → String
+  | .loadConst _ => "K"
+  | .lookup x => s!"Lookup:{x}"
+  | .buildList n => s!"BuildList:{n}"
+  | .buildTuple n => s!"BuildTuple:{n}"
+  | .buildMap n => s!"BuildMap:{n}"
+  | .buildKwargs n => s!"BuildKwargs:{n}"
+  | .mergeKwargs n => s!"MergeKwargs:{n}"
+  | .unpackLists n => s!"UnpackLists:{n}"
+  | .not => "Not"
+  | .neg => "Neg"
+  | .bin op => binName op
+  | .jumpIfFalseOrPop k => s!"JFP:{k}"
+  | .jumpIfTrueOrPop k => s!"JTP:{k}"
+  | .jumpIfFalse k => s!"JF:{k}"
+  | .jump k => s!"J:{k}"
+  | .compareAndPreserve op => s!"CAP:{cmpName op}"
+  | .swap => "Swap"
+  | .discardTop => "DiscardTop"
+  | .getAttr n => s!"GetAttr:{n}"
+  | .getItem => "GetItem"
+  | .slice => "Slice"
+  | .applyFilter n a => s!"ApplyFilter:{n}:{argcStr a}"
+  | .performTest n a => s!"PerformTest:{n}:{argcStr a}"
+  | .callFunction n a => s!"CallFunction:{n}:{argcStr a}"
+  | .callMethod n a => s!"CallMethod:{n}:{argcStr a}"
+  | .callObject a => s!"CallObject:{argcStr a}"
+
 def handle (line : String) : String :=
   match line.splitOn "\t" with
   | ["stmt", toks] =>
@@ -386,7 +429,8 @@ def handle (line : String) : String :=
   | ["consts", toks] =>
     -- the `LoadConst` values of the code the model's `compile_expr` emits for a hoisting variant
     match parseE ((toks.splitOn " ").filter (· ≠ "")) with
-    | some (e, []) => "consts=" ++ ",".intercalate ((constsC prims e).map showV)
+    | some (e, []) => "consts=" ++ ",".intercalate ((constsC prims e).map showV) ++
+        "\tops=" ++ " ".intercalate ((codeC prims e).map showI)
     | _ => "bad-case"
   | [mode, toks] =>
     match modeOf mode, parseE ((toks.splitOn " ").filter (· ≠ "")) with
